@@ -438,7 +438,9 @@ Fixpoint trun (n : Z) (st : state) (ops : list top) : list (list Z) :=
    the thread that holds its drain lock will look at it again" (the DIRTY bit protocol of the lanes).  Boundary to the
    lane properties (C01/C04): an enqueued, unsuspended source is eventually invoked; a dx_wakeup that races with an invoke
    is not lost.  One XInvoke step performs the first applicable action of invoke2; an invoke2 call that performs
-   several actions on one queue is several XInvoke steps with nothing in between *)
+   several actions on one queue is several XInvoke steps with nothing in between.
+   Suspension is single-level: t_susp is a flag (DISPATCH_QUEUE_IS_SUSPENDED), not the suspend count of dq_state;
+   histories with nested dispatch_suspend are excluded by the guards of the theorems (TimerSrc_proofs.xguard) *)
 Record xstate := mkX {
   x_st : state;
   x_canc : Z -> bool;          (* DSF_CANCELED *)
